@@ -61,8 +61,10 @@ def gen_policy(rng, o):
 
 def gen_env(rng, p, c, o):
     n_ops = max(1, min(9, (p["max_attempts"] if p["max_attempts"] > 0 else 1) + rng.randint(0, 1)))
-    pool = rng.sample(KLASSES, rng.randint(1, 3))
-    if rng.random() < 0.8:
+    pool = rng.sample(o.get("klass_pool") or KLASSES, min(len(o.get("klass_pool") or KLASSES), rng.randint(1, 3)))
+    if o.get("klass_pool"):
+        pass
+    elif rng.random() < 0.8:
         pool = [k for k in pool if k in RETRYABLE] or [rng.choice(RETRYABLE)]
     dl = p["deadline"]
     durs = [0, 0, 1, 2] + ([dl - 1, dl, dl + 1, max(0, dl // 2)] if dl < 1000 else [5, 64])
@@ -188,7 +190,7 @@ def g_op(op):
     kind, dur, klass, ra = op[:4]
     if kind == "V":
         o = G.con("OValue", "None" if klass is None else f"(Some {g_classif(klass, ra)})")
-    elif kind == "R":
+    elif kind in ("R", "O"):
         o = G.con("ORaise", g_classif(klass, ra))
     elif kind == "A":
         o = "OAbort"
@@ -226,7 +228,7 @@ def g_cfg(c, budget):
 def g_tags(t, decorator=False):
     extra = "extra" in t or "state" in t
     klass = t.get("class")
-    ok_err = t.get("err") in (None, "ScriptedError")
+    ok_err = t.get("err") in (None, "ScriptedError", "CircuitOpenError")
     ok_op = t.get("operation") in (None, "opname")
     return G.rec(
         t_class=G.opt(klass if klass in KLASSES else None),
